@@ -383,11 +383,16 @@ func genRlCase(r *Result, rng *rand.Rand, n int) []string {
 	sim := &rlRef{cfg: c, global: newXB(big.NewRat(c.g, 1), c.g, now), ip: map[string]*xb{}, conn: map[string]*xb{}, op: map[string]*xb{}}
 	ips := []string{"10.0.0.1", "10.0.0.2", "10.0.0.3", "10.0.0.4"}
 	abusive := ips[0]
+	hotOp := []string{"readdir", "mount", "write_large"}[rng.Intn(3)] // the operation the abusive client hammers in this case
+	opEvery := []int{5, 5, 2}[rng.Intn(3)]
 	for len(ops) < n {
 		now += steps[rng.Intn(len(steps))]
-		if rng.Intn(5) == 0 {
+		if rng.Intn(opEvery) == 0 {
 			ip := ips[rng.Intn(len(ips))]
 			o := []string{"read_large", "write_large", "readdir", "mount"}[rng.Intn(4)]
+			if rng.Intn(2) == 0 {
+				ip, o = abusive, hotOp
+			}
 			key := ip + "|" + o
 			b := sim.op[key]
 			if b == nil {
@@ -442,7 +447,7 @@ func genRlCase(r *Result, rng *rand.Rand, n int) []string {
 }
 
 func checkLimiter(r *Result, rng *rand.Rand, thorough bool, prop string) {
-	r.Rule = "request timing sequences on the virtual clock (steps 0, 1ms, 0.1s, 0.5s, 1s, 6s, 61s, 10min) against real TokenBucket and RateLimiter: global/per-IP/per-connection/per-operation limiters, 4 IPs (one abusive), rates {0,1,2,50}/s and 10|60|1 per minute, bursts {0,1,2,5}, cleanup interval 1s|5min so that cleanup passes occur; a case is cut before any instant where float64 rounding would flip a consulted bucket's decision (exact rational vs a float64 mirror of TokenBucket.Allow); non-trivial = at least one refusal and one admission; distinct = distinct op sequences"
+	r.Rule = "request timing sequences on the virtual clock (steps 0, 1ms, 0.1s, 0.5s, 1s, 6s, 61s, 10min) against real TokenBucket and RateLimiter: global/per-IP/per-connection/per-operation limiters, 4 IPs (one abusive, hammering one operation type per case), rates {0,1,2,50}/s and 10|60|1 per minute, bursts {0,1,2,5}, cleanup interval 1s|5min so that cleanup passes occur; a case is cut before any instant where float64 rounding would flip a consulted bucket's decision (exact rational vs a float64 mirror of TokenBucket.Allow); non-trivial = at least one refusal and one admission; distinct = distinct op sequences"
 	ncases, n := 200, 80
 	if thorough {
 		ncases, n = 8000, 200
